@@ -33,7 +33,12 @@ CLAIMED = {
          "(RangeProofs.v, Flocq): an available raw value whose exact product raw x resolution lies inside [RangeMin, RangeMax] (also: "
          "within the decoder's 1e-12 tolerance) is never rejected and decodes to the correctly rounded double of raw x resolution "
          "(relative error <= 2^-53), for |raw| < 2^53 and ordinary resolutions; boolean, kernel-computable forms of the hypotheses are "
-         "provided. PARTIAL: the database attribute Offset (23 fields) is ignored by the code (known finding) and is decided by the "
+         "provided. END TO END (tools/templates/OblE2E.v, per run; EndToEnd.v composes the wire front-ends, the control layer, the "
+         "dispatcher tables and the decoder tables): E2E_any_entry / E2E_single_frame / E2E_all_formats / E2E_undispatched / E2E_claim "
+         "- for an unfiltered decoder in ANY state, every entry point, every identifier and data: the returned message has the "
+         "PGN/id of the definition the database rule selects, source/destination/priority of the frame, the stored identity, and "
+         "exactly spec_decode's fields (342 fixed-layout definitions), tied to the real decoder by whole-history correspondence "
+         "incl. final source map and reassembly store. PARTIAL: the database attribute Offset (23 fields) is ignored by the code (known finding) and is decided by the "
          "witness search; the 75 variable-layout definitions are covered by the table obligation and the correspondence only.",
          "Trusted: Coq kernel + vm_compute + native float/int63 primitives; translators tr_pgns.py/tr_db.py (cross-examined by "
          "running the real generated decoders against run_ddef on the translated tables); hand models Fields.v/PyNum.v of "
@@ -82,7 +87,7 @@ CLAIMED = {
          "Trusted: Coq kernel + vm_compute; hand model FastPacket.v (wire byte order), tied by the complete 224x8 encoder sweep, random cases and decode_tcp histories; Python int/bytes = Z / list Z. Theorems closed under the global context.",
          "DESIGN.md §5 C03"),
  "C04": ("Coq proof: invariant (frame store = filter seen (message frames)), refinement of fp_step to a set-based reference, frame lemma and projection theorem for unbounded histories and streams; kernel-evaluated history correspondence",
-         "C04_frame/product/refines/interleave/safety/once/complete/recover/padding/sender/key hold for all histories of any length over any number of (pgn,src,dst) streams under the stated channel model (consecutive counters on a stream differ; stale frames carry another counter; senders satisfy msg_ok, proved for the library's segmenter with up to 6 filler bytes); C04_unrepaired_refuted shows the padding dependence of the code before fix 5097fe2",
+         "C04_frame/product/refines/interleave/safety/once/complete/recover/padding/sender/key hold for all histories of any length over any number of (pgn,src,dst) streams under the stated channel model (consecutive counters on a stream differ; stale frames carry another counter; senders satisfy msg_ok, proved for the library's segmenter with up to 6 filler bytes); C04_unrepaired_refuted shows the padding dependence of the code before fix 5097fe2; C04_control_layer_step/run/inverse: the reassembly step written independently inside the control-layer model (DecoderCtl.v, C10/C11/C16) is the same function, so these theorems hold for it",
          "Trusted: kernel + vm_compute; FastPacket.v tied by adversarial decode_tcp histories incl. final buffer contents; tcp_frame + Header.extract_header stand in for the decode_tcp front end; channel-model hypotheses. Theorems closed under the global context.",
          "DESIGN.md §5 C04"),
 
@@ -90,7 +95,7 @@ CLAIMED = {
          "C06_roundtrip_ebyte/usb/yd/actisense: for EVERY canonical header and frame list (data of 0..8 bytes; lines need >= 1 byte) the encoder's packets are parsed back by the matching parser to the same (pgn, priority, source, destination, data); C06_sizes: every EByte packet has 13 bytes, every USB packet 20 bytes with checksum = byte 19, every Yacht Devices packet is one line ending in CR LF with no CR/LF inside; C06_checksum / C06_checksum_any: changing any one of bytes 2..19 of ANY accepted USB packet to ANY other value makes decode_usb reject it; C06_split: a concatenation of packets is cut back into the same packets by fixed 13-byte reads, 20-byte windows / the serial marker search, and line reads. The field-value part of the round trip (encode message -> payload -> decode) is C02/C09/C01; the tie between the parsed tuple and the returned message is the search oracle on the real code.",
          None, "DESIGN.md §5 C06"),
  "C07": ("Coq proof (one theorem over all renderings of a frame in the five input grammars, by induction on token lists) of hand models of the five front-ends down to the argument tuple handed to _decode + kernel-evaluated correspondence of every front-end with the real parsers",
-         "C07_frontends: for EVERY 29-bit identifier and data bytes, every EByte packet (any flag bits, any padding), every USB packet (any type/reserved bytes, padding), every canboat line (either time-stamp form, any decimal spelling, hex tokens in any case, extra tokens), every Yacht Devices line (R/T, any hex case, leading zeros, trailing whitespace) and every Actisense line carrying that frame hands _decode the SAME tuple (pgn, priority, source, destination, reversed data) — so everything behind _decode is identical; C07_assembled: frame-by-frame delivery through any mix of the three frame-level formats reassembles (for any segmenter/reassembler pair that is inverse, instantiated by C03) to exactly what the pre-assembled formats hand over in one call.",
+         "C07_frontends: for EVERY 29-bit identifier and data bytes, every EByte packet (any flag bits, any padding), every USB packet (any type/reserved bytes, padding), every canboat line (either time-stamp form, any decimal spelling, hex tokens in any case, extra tokens), every Yacht Devices line (R/T, any hex case, leading zeros, trailing whitespace) and every Actisense line carrying that frame hands _decode the SAME tuple (pgn, priority, source, destination, reversed data) — so everything behind _decode is identical; C07_assembled: frame-by-frame delivery through any mix of the three frame-level formats reassembles (for any segmenter/reassembler pair that is inverse, instantiated by C03) to exactly what the pre-assembled formats hand over in one call; C07_assembled_fastpacket: the same with the library's own segmenter and reassembler (C03) and no abstract hypothesis left. END TO END (OblE2E.v, per run): E2E_all_formats - for every rendering of a frame in the five grammars an unfiltered decoder in any state returns the SAME message (PGN/id selected by the database rule, addressing, identity, spec_decode's fields), with whole-history correspondence of the composed model against the real decoder through all five entry points.",
          None, "DESIGN.md §5 C07"),
  "C10": ("Coq proof by induction over the call history (simulation between the filtered and the unfiltered decoder run: equal source maps, reassembly stores related by the numeric pre-filter) of a hand model of the repaired filter logic, for all configurations and all databases satisfying two checked hypotheses + kernel-evaluated history correspondence with the real decoder",
          "Theorem C10: for EVERY filter configuration the constructor accepts (numbers, ids in any letter case, mixed, with/without the claim PGN, empty) and EVERY history, position by position the filtered decoder returns exactly the unfiltered decoder's message when its PGN is permitted (same message value) and nothing otherwise, and both decoders hold the same source map after every call (claims update it even when filtered).",
